@@ -7,7 +7,8 @@ constructor has a fixed arity, lists are preceded by their length):
 
 ```
 wsgi serve <app> <req>                       one request on fresh slots (C03)
-wsgi hist  <app> <n> <hreq>*n                a whole history on one application (C09)
+wsgi hist  <app> <nm> (cls code line body)*nm <n> <hreq>*n   a whole history on one application (C09);
+                                             nm > 0: the application's own errors_map
 wsgi setstatus <i n | s hex>                 the status setter alone
 
 app     := <catchall> <nb> hook*  <na> hook*  <ne> (<code> errh)*
@@ -302,11 +303,18 @@ def handle : List String → Option String
     pure (if res.escaped then s!"ev={showEvents (res.events ++ serverEvents res)} escaped" ++ hooks
           else showResult (res.events ++ serverEvents res) res ++ hooks)
   | "hist" :: rest => do
-    let ((_, app), reqs) ← run (do
+    let ((_, app), emap, reqs) ← run (do
       let a ← pApp
+      let m ← pList (do
+        let cls ← tok
+        let code ← pNat
+        let line ← pStr
+        let body ← pStr
+        pure (cls, code, line, body))
       let rs ← pList pHReq
-      pure (a, rs)) rest
-    let (st, outs) := serveAll app AppState.init reqs
+      pure (a, m, rs)) rest
+    let st0 := if emap.isEmpty then AppState.init else AppState.initWith emap
+    let (st, outs) := serveAll app st0 reqs
     pure (";".intercalate (outs.map showResponse) ++ s!" retained={(retained st).length}")
   | ["setstatus", "i", n] => do
     let k ← n.toNat?
